@@ -363,4 +363,61 @@ theorem intersection_exact (table other : Table) (mode : Mode) (h : WFGenome tab
   cases hs
   exact hq b ((mem_queriesInOrder other b).mp hb)
 
+/-- the slice of a query is what the driver's oracle `selectSpec` (the property's wording, evaluated on the REAL
+    output) computes -/
+theorem hitsOf_eq_selectSpec (source : Table) (h : WFGenome source) (q : Row) (hq : 0 ≤ q.s) :
+    hitsOf source false q = selectSpec source q.chrom q.s q.e .outer := by
+  rw [hitsOf_exact source h false q hq]
+  unfold selectSpec rowsOf
+  simp only [List.filter_filter]
+  apply List.filter_congr
+  intro r _
+  simp [selFilter, Bool.and_comm]
+
+theorem intoRanges_spec (r0 : Row) (rest dest : Table) (col : Row → Val) (d : Val) (s : Summary)
+    (h : WFGenome (r0 :: rest)) (hq : ∀ q ∈ dest, 0 ≤ q.s) :
+    intoRanges (r0 :: rest) dest col d s =
+      (queriesInOrder dest).map (fun q =>
+        seriesToValue d (pickSummary s (col r0)) ((selectSpec (r0 :: rest) q.chrom q.s q.e .outer).map col)) := by
+  rw [intoRanges_per_query]
+  apply List.map_congr_left
+  intro q hqm
+  rw [hitsOf_eq_selectSpec _ h q (hq q ((mem_queriesInOrder dest q).mp hqm))]
+
+/-! ### `by_ranges` in the words of the property -/
+
+theorem rangeSpec_nil (qs qe : Option Int) (mode : Mode) : rangeSpec [] qs qe mode = [] := by
+  unfold rangeSpec
+  split <;> simp [trimRows]
+
+theorem byRanges_exact (table other : Table) (mode : Mode) (ke : Bool) (h : WFGenome table)
+    (hq : ∀ b ∈ other, 0 ≤ b.s) :
+    byRanges table other mode ke =
+      ((queriesInOrder other).map (fun b =>
+        (b, rangeSpec (table.filter (fun r => r.chrom == b.chrom)) (some b.s) (some b.e) mode))).filter
+        (fun p => !p.2.isEmpty || ke) := by
+  unfold byRanges
+  rw [byRangesDf_per_chromosome]
+  unfold queriesInOrder
+  rw [map_flatMap', List.filter_flatMap, List.filter_flatMap]
+  apply rm_flatMap_congr
+  intro c hc
+  have hmem : ∀ b ∈ other.filter (fun r => r.chrom == c), b.chrom = c ∧ 0 ≤ b.s := by
+    intro b hb
+    rw [List.mem_filter] at hb
+    exact ⟨by simpa using hb.2, hq b hb.1⟩
+  have hR : (other.filter (fun r => r.chrom == c)).map (fun b =>
+        (b, rangeSpec (table.filter (fun r => r.chrom == b.chrom)) (some b.s) (some b.e) mode)) =
+      (other.filter (fun r => r.chrom == c)).map (fun b =>
+        (b, selectRange (table.filter (fun r => r.chrom == c)) (some b.s) (some b.e) mode)) := by
+    apply List.map_congr_left
+    intro b hb
+    obtain ⟨hbc, hb0⟩ := hmem b hb
+    rw [hbc, selectRange_exact _ (h.chrom c) (some b.s) (some b.e) (by intro s hs; cases hs; exact hb0)]
+  rw [hR]
+  by_cases hsrc : (table.filter (fun r => r.chrom == c)).isEmpty = true
+  · have hnil : table.filter (fun r => r.chrom == c) = [] := by simpa using hsrc
+    cases ke <;> simp [hnil, selectRange_nil, List.filter_map, Function.comp_def]
+  · simp [hsrc]
+
 end CnvVerif
